@@ -40,6 +40,7 @@ package kmipserver
 //@   ensures rejected(exec, req) ==> r1 != nil && r0 == nil
 //@   ensures nomw(exec) ==> (rejected(exec, req) ==> itemCalls == old(itemCalls))
 //@   ensures !rejected(exec, req) ==> r1 == nil && r0 != nil && isnew(r0) && len(r0.BatchItem) == len(req.BatchItem)
+//@   ensures ewmCalls > old(ewmCalls) ==> ewmCtx == ctx
 //@   ensures !rejected(exec, req) ==> r0.Header.BatchCount == req.Header.BatchCount && r0.Header.ProtocolVersion == req.Header.ProtocolVersion
 //@   ensures nomw(exec) ==> (!rejected(exec, req) ==> forall j int :: 0 <= j && j < len(req.BatchItem) ==> r0.BatchItem[j].Operation == req.BatchItem[j].Operation && r0.BatchItem[j].UniqueBatchItemID == req.BatchItem[j].UniqueBatchItemID)
 //@   ensures nomw(exec) ==> (!rejected(exec, req) && !isStop(req) ==> itemCalls == old(itemCalls)+len(req.BatchItem))
@@ -48,7 +49,7 @@ package kmipserver
 //@   ensures nomw(exec) ==> (!rejected(exec, req) && isStop(req) ==> forall j int :: 0 <= j && j+1 < itemCalls-old(itemCalls) ==> !failed(r0.BatchItem[j]))
 //@   ensures nomw(exec) ==> (!rejected(exec, req) && isStop(req) && itemCalls-old(itemCalls) < len(req.BatchItem) ==> itemCalls-old(itemCalls) >= 1 && failed(r0.BatchItem[itemCalls-old(itemCalls)-1]))
 //@   modifies holder(ctx).idPlaceholder
-//@   ghostmod biCalls, biSelf, biNext, biCtx, biItem, biRet, biErr, itemCalls, itemCtx, itemItem, itemRet, itemErr, handlerCalls
+//@   ghostmod biCalls, biSelf, biNext, biCtx, biItem, biRet, biErr, itemCalls, itemCtx, itemItem, itemRet, itemErr, handlerCalls, handlerCtx, ewmCalls, ewmCtx
 //@   ghost coreCalls = old(coreCalls) + 1
 //@   ghost coreCtx = ctx
 //@   ghost corePlaceholderAtEntry = old(holder(ctx).idPlaceholder)
@@ -56,6 +57,7 @@ package kmipserver
 //@   ghost coreRet = r0
 //@   ghost coreErr = r1
 //@   loop 0 invariant -1 <= rangeindex && rangeindex < len(req.BatchItem)
+//@   loop 0 invariant ewmCalls >= old(ewmCalls) && (ewmCalls > old(ewmCalls) ==> ewmCtx == ctx)
 //@   loop 0 invariant nomw(exec) ==> (forall j int :: 0 <= j && j <= rangeindex ==> response.BatchItem[j].Operation == req.BatchItem[j].Operation && response.BatchItem[j].UniqueBatchItemID == req.BatchItem[j].UniqueBatchItemID)
 //@   loop 0 invariant nomw(exec) ==> (!stopped ==> itemCalls == old(itemCalls)+rangeindex+1)
 //@   loop 0 invariant nomw(exec) ==> (0 <= itemCalls-old(itemCalls) && itemCalls-old(itemCalls) <= rangeindex+1)
@@ -63,7 +65,7 @@ package kmipserver
 //@   loop 0 invariant nomw(exec) ==> (stopped ==> forall j int :: itemCalls-old(itemCalls) <= j && j <= rangeindex ==> failed(response.BatchItem[j]))
 //@   loop 0 invariant nomw(exec) ==> (errorContinuationOption == kmip.BatchErrorContinuationOptionStop ==> forall j int :: 0 <= j && j+1 < itemCalls-old(itemCalls) ==> !failed(response.BatchItem[j]))
 //@   loop 0 invariant !stopped && errorContinuationOption == kmip.BatchErrorContinuationOptionStop ==> forall j int :: 0 <= j && j <= rangeindex ==> !failed(response.BatchItem[j])
-//@   loop 0 ghostmod biCalls, biSelf, biNext, biCtx, biItem, biRet, biErr, itemCalls, itemCtx, itemItem, itemRet, itemErr, handlerCalls
+//@   loop 0 ghostmod ewmCalls, ewmCtx, biCalls, biSelf, biNext, biCtx, biItem, biRet, biErr, itemCalls, itemCtx, itemItem, itemRet, itemErr, handlerCalls
 
 // The continuation for stage i of the message chain (built by nextAt).
 //@ func (*BatchExecutor).nextAt$1
@@ -74,7 +76,7 @@ package kmipserver
 //@   ensures i >= len(exec.middlewares) ==> mwCalls == old(mwCalls) && coreCalls == old(coreCalls)+1 && coreCtx == ctx && coreMsg == rm && r0 == coreRet && r1 == coreErr
 //@   ensures i >= len(exec.middlewares) ==> corePlaceholderAtEntry == old(holder(ctx).idPlaceholder) && ((r0 == nil) == (r1 != nil))
 //@   ensures i == old(i) && exec == old(exec)
-//@   ghostmod mwCalls, mwSelf, mwNext, mwCtx, mwMsg, mwRet, mwErr, coreCalls, coreCtx, coreMsg, coreRet, coreErr, biCalls, biSelf, biNext, biCtx, biItem, biRet, biErr, itemCalls, itemCtx, itemItem, itemRet, itemErr, handlerCalls, handlerCtx, corePlaceholderAtEntry
+//@   ghostmod mwCalls, mwSelf, mwNext, mwCtx, mwMsg, mwRet, mwErr, coreCalls, coreCtx, coreMsg, coreRet, coreErr, biCalls, biSelf, biNext, biCtx, biItem, biRet, biErr, itemCalls, itemCtx, itemItem, itemRet, itemErr, handlerCalls, handlerCtx, corePlaceholderAtEntry, ewmCalls, ewmCtx
 //@   modifies holder(ctx).idPlaceholder
 
 // batch-item chain
@@ -121,6 +123,8 @@ package kmipserver
 //@   requires execOK(exec) && bi != nil && itemOK(*bi) && ctx != nil && (0 < len(exec.biMiddlewares) ==> exec.biMiddlewares[0] != nil)
 //@   ensures len(exec.biMiddlewares) == 0 ==> itemCalls == old(itemCalls)+1 && itemCtx == ctx && itemItem == bi
 //@   ensures len(exec.biMiddlewares) == 0 ==> resp.Operation == bi.Operation && resp.UniqueBatchItemID == bi.UniqueBatchItemID
+//@   ghost ewmCalls = old(ewmCalls) + 1
+//@   ghost ewmCtx = ctx
 //@   ghostmod biCalls, biSelf, biNext, biCtx, biItem, biRet, biErr, itemCalls, itemCtx, itemItem, itemRet, itemErr, handlerCalls
 //@   modifies holder(ctx).idPlaceholder
 
@@ -171,6 +175,8 @@ package kmipserver
 // ID placeholder scope (C15)
 
 //@ ghostvar handlerCtx context.Context
+//@ ghostvar ewmCalls int
+//@ ghostvar ewmCtx context.Context
 //@ ghostvar corePlaceholderAtEntry string
 
 //@ func newBatchContext
@@ -210,4 +216,4 @@ package kmipserver
 //@   ensures len(exec.middlewares) == 0 ==> coreCalls == old(coreCalls)+1 && coreMsg == req && typeis(ctxvalue(coreCtx, ctxBatch), *batchData) && isnew(holder(coreCtx)) && corePlaceholderAtEntry == ""
 //@   ensures len(exec.middlewares) == 0 ==> ctxvalue(coreCtx, ctxConn) == ctxvalue(ctx, ctxConn)
 //@   ensures 0 < len(exec.middlewares) ==> mwCalls == old(mwCalls)+1 && mwMsg == req && mwSelf == exec.middlewares[0] && typeis(ctxvalue(mwCtx, ctxBatch), *batchData) && isnew(holder(mwCtx))
-//@   ghostmod mwCalls, mwSelf, mwNext, mwCtx, mwMsg, mwRet, mwErr, coreCalls, coreCtx, coreMsg, coreRet, coreErr, biCalls, biSelf, biNext, biCtx, biItem, biRet, biErr, itemCalls, itemCtx, itemItem, itemRet, itemErr, handlerCalls, handlerCtx, corePlaceholderAtEntry
+//@   ghostmod mwCalls, mwSelf, mwNext, mwCtx, mwMsg, mwRet, mwErr, coreCalls, coreCtx, coreMsg, coreRet, coreErr, biCalls, biSelf, biNext, biCtx, biItem, biRet, biErr, itemCalls, itemCtx, itemItem, itemRet, itemErr, handlerCalls, handlerCtx, corePlaceholderAtEntry, ewmCalls, ewmCtx
